@@ -155,7 +155,10 @@ theorem sel_spec (amount : Nat) : ∀ (nodes opt : List Utxo) (a : Nat) (mode : 
         · simpa using h4 hl
       · simp only [hlt, if_false] at h
         cases opt with
-        | nil => simp at h
+        | nil =>
+          simp only [Option.some.injEq, Prod.mk.injEq] at h
+          obtain ⟨rfl, rfl⟩ := h
+          exact ⟨hpre, by simp [modeNodes], id, fun hl => by omega⟩
         | cons l tl =>
           simp only at h
           rcases replDecide_cases amount n (l :: tl).length tl [] (a - l.amount) with hc | ⟨hc, hge⟩ | ⟨hc, hl⟩
@@ -210,8 +213,8 @@ theorem sel_spec (amount : Nat) : ∀ (nodes opt : List Utxo) (a : Nat) (mode : 
         refine ⟨h1, ?_, h3, fun hl => by have := h3 hge0; omega⟩
         simpa [modeNodes] using h2
 
-/-- the loop never panics when the requested amount is positive -/
-theorem sel_some_of_pos (amount : Nat) (hpos : 0 < amount) : ∀ (nodes opt : List Utxo) (a : Nat) (mode : Mode),
+/-- the loop never panics -/
+theorem sel_some (amount : Nat) : ∀ (nodes opt : List Utxo) (a : Nat) (mode : Mode),
     SelPre amount opt a mode → ∃ r, sel amount nodes opt a mode = some r := by
   intro nodes
   induction nodes with
@@ -227,7 +230,7 @@ theorem sel_some_of_pos (amount : Nat) (hpos : 0 < amount) : ∀ (nodes opt : Li
         exact ih _ _ _ (by simp [SelPre, amounts_append, amounts_cons, amounts_nil, hpre])
       · simp only [hlt, if_false]
         cases opt with
-        | nil => simp [amounts] at hpre; omega
+        | nil => exact ⟨_, rfl⟩
         | cons l tl =>
           simp only
           have hamt : a - l.amount = amounts tl := by rw [hpre, amounts_cons]; omega
@@ -268,11 +271,11 @@ theorem optUTXOs_spec {k : Keeper} {sorted : List Utxo} {amount : Nat} {opt : Li
     obtain ⟨h1, h2, _, h4⟩ := this
     refine ⟨h1, by simpa [modeNodes] using h2, rfl, fun hl => by simpa using h4 hl⟩
 
-theorem optUTXOs_some_of_pos (k : Keeper) (sorted : List Utxo) (amount : Nat) (hpos : 0 < amount) :
+theorem optUTXOs_some (k : Keeper) (sorted : List Utxo) (amount : Nat) :
     ∃ r, optUTXOs k sorted amount = some r := by
   unfold optUTXOs
   simp only
-  obtain ⟨⟨o, a⟩, hr⟩ := sel_some_of_pos amount hpos (sorted.filter (fun u => !isReserved k u)) [] 0 .fill (by simp [SelPre, amounts])
+  obtain ⟨⟨o, a⟩, hr⟩ := sel_some amount (sorted.filter (fun u => !isReserved k u)) [] 0 .fill (by simp [SelPre, amounts])
   rw [hr]
   exact ⟨_, rfl⟩
 
@@ -522,11 +525,11 @@ def resvOf (k : Keeper) (m : List Utxo) : Nat := amounts (m.filter (fun u => mat
 def immOf (k : Keeper) (m : List Utxo) : Nat := amounts (m.filter (fun u => !mature k u))
 
 theorem reserveWith_outcome (sortFn : List Utxo → List Utxo) (hperm : ∀ l, (sortFn l).Perm l) (k : Keeper)
-    (acct asset amount : Nat) (useUnc : Bool) (vote exp : Nat) (hpos : 0 < amount) :
+    (acct asset amount : Nat) (useUnc : Bool) (vote exp : Nat) :
     outcomeClass (reserveWith sortFn k acct asset amount useUnc vote exp).1 =
       some (classify (availOf k (matching k acct asset useUnc vote)) (resvOf k (matching k acct asset useUnc vote))
         (immOf k (matching k acct asset useUnc vote)) amount) := by
-  obtain ⟨⟨opt, a, ra⟩, hopt⟩ := optUTXOs_some_of_pos k (sortFn (findUtxos k acct asset useUnc vote).1) amount hpos
+  obtain ⟨⟨opt, a, ra⟩, hopt⟩ := optUTXOs_some k (sortFn (findUtxos k acct asset useUnc vote).1) amount
   obtain ⟨h1, h2, h3, h4⟩ := optUTXOs_spec hopt
   set m := matching k acct asset useUnc vote with hm
   have hc : (findUtxos k acct asset useUnc vote).1 = m.filter (mature k) := rfl
@@ -579,11 +582,25 @@ theorem sortDesc_perm (l : List Utxo) : (sortDesc l).Perm l := by
     simp only [List.foldr_cons]
     exact (insertDesc_perm u _).trans (List.Perm.cons u ih)
 
-/-! ### de-duplication by id (what "distinct outputs" means) -/
+/-! ### de-duplication by id (the `listed` map of findUtxos) -/
 
-def distinctById : List Utxo → List Utxo
-  | [] => []
-  | u :: rest => u :: (distinctById rest).filter (fun v => v.id != u.id)
+theorem distinctById_sublist (l : List Utxo) : (distinctById l).Sublist l := by
+  induction l with
+  | nil => exact List.Sublist.slnil
+  | cons u rest ih =>
+    simp only [distinctById]
+    exact (List.filter_sublist.trans ih).cons_cons u
+
+theorem distinctById_nodup (l : List Utxo) : ((distinctById l).map (·.id)).Nodup := by
+  induction l with
+  | nil => simp [distinctById]
+  | cons u rest ih =>
+    simp only [distinctById, List.map_cons, List.nodup_cons]
+    refine ⟨?_, (List.filter_sublist.map _).nodup ih⟩
+    intro hm
+    obtain ⟨v, hv, he⟩ := List.mem_map.mp hm
+    simp only [List.mem_filter, bne_iff_ne, ne_eq] at hv
+    exact hv.2 he
 
 theorem distinctById_of_nodup (l : List Utxo) (h : (l.map (·.id)).Nodup) : distinctById l = l := by
   induction l with
@@ -597,5 +614,26 @@ theorem distinctById_of_nodup (l : List Utxo) (h : (l.map (·.id)).Nodup) : dist
     simp only [bne_iff_ne, ne_eq]
     intro heq
     exact h.1 (List.mem_map.mpr ⟨v, hv, heq⟩)
+
+/-- every candidate `findUtxos` returns was listed and matches the request -/
+theorem mem_matching {k : Keeper} {acct asset vote : Nat} {useUnc : Bool} {u : Utxo}
+    (h : u ∈ matching k acct asset useUnc vote) :
+    u ∈ listed k useUnc ∧ u.account = acct ∧ u.asset = asset ∧ u.vote = vote := by
+  have := (distinctById_sublist _).subset h
+  simp only [List.mem_filter, matchesReq, Bool.and_eq_true, beq_iff_eq] at this
+  exact ⟨this.1, this.2.1.1, this.2.1.2, this.2.2⟩
+
+/-- the outputs of a successful reservation are pairwise distinct -/
+theorem reserved_nodup (sortFn : List Utxo → List Utxo) (hperm : ∀ l, (sortFn l).Perm l) (k : Keeper)
+    (acct asset : Nat) (useUnc : Bool) (vote : Nat) (us : List Utxo)
+    (hsub : us.Sublist ((sortFn (findUtxos k acct asset useUnc vote).1).filter (fun u => !isReserved k u))) :
+    (us.map (·.id)).Nodup := by
+  have s1 : (us.map (·.id)).Sublist ((sortFn (findUtxos k acct asset useUnc vote).1).map (·.id)) :=
+    (hsub.trans List.filter_sublist).map _
+  have p1 := (hperm (findUtxos k acct asset useUnc vote).1).map (·.id)
+  have s2 : ((findUtxos k acct asset useUnc vote).1.map (·.id)).Sublist ((matching k acct asset useUnc vote).map (·.id)) := by
+    simp only [findUtxos]
+    exact List.filter_sublist.map _
+  exact s1.nodup (p1.nodup_iff.mpr (s2.nodup (distinctById_nodup _)))
 
 end BytomModel.Lemmas.Keeper
